@@ -6,6 +6,8 @@ package main
 
 import (
 	"fmt"
+	"os"
+	"runtime/debug"
 	"go/token"
 	"go/types"
 	"sort"
@@ -55,6 +57,8 @@ type Oblig struct {
 	Extra     []*Term
 	ExpectSat bool // vacuity / reachability checks: must be satisfiable
 	Trivial   bool
+	Sliced    bool // discharged from a subset of the hypotheses
+	Cases     int  // discharged as this many path-condition cases
 	// results
 	Status  string
 	Solver  string
@@ -111,6 +115,11 @@ type Exec struct {
 	nameCount     map[string]int
 	allocCtr      int
 	decrEntry     *Term
+	inlineNames    map[string]bool
+	harnessUnroll  int
+	unrollOverride int
+	unfolding     map[*ssa.Function]int
+	memVer        map[*Mem]uint64
 	freshBaseName map[string]string
 }
 
@@ -142,6 +151,10 @@ func (x *Exec) assumeIn(st *State, t *Term) {
 	if g.IsTrue() {
 		return
 	}
+	if g.IsFalse() && os.Getenv("GOCV_DEBUG") != "" {
+		fmt.Fprintf(os.Stderr, "DEBUG: assuming false under pc true (hyp #%d)\n", len(x.assumes))
+		debug.PrintStack()
+	}
 	x.assumes = append(x.assumes, g)
 }
 
@@ -165,13 +178,18 @@ func (x *Exec) oblige(st *State, kind, name string, pos token.Pos, goal *Term) {
 		name = fmt.Sprintf("%s.%d", name, c)
 	}
 	o := &Oblig{Name: x.unit + "#" + name, Kind: kind, Func: x.unit, Pos: x.posStr(pos), PC: x.full(st), Goal: goal, NHyps: len(x.assumes)}
+	if goal.IsFalse() && o.PC.IsTrue() && os.Getenv("GOCV_DEBUG") != "" {
+		fmt.Fprintf(os.Stderr, "DEBUG: obligation %s has goal false under pc true\n", o.Name)
+	}
 	if goal.IsTrue() || o.PC.IsFalse() {
 		o.Trivial = true
 		o.Status = "unsat"
 		o.Solver = "simplifier"
 	}
-	// instantiate pending quantified hypotheses at the goal's skolems and their hints
+	// instantiate pending quantified hypotheses at the skolem constants introduced while
+	// this goal was built (and at explicit hints)
 	o.Extra = x.instantiatePending()
+	x.skolems = nil
 	x.obligs = append(x.obligs, o)
 	// once checked, the goal may be assumed on this path (standard assert-then-assume)
 	x.assumeIn(st, goal)
@@ -254,8 +272,11 @@ func (x *Exec) load(st *State, a *Addr, t types.Type) *Val {
 		m := x.heap(st, a.prefix+c.suffix, len(a.keys), c.hsort())
 		v.C[i] = x.tb.ZExt(c.sort, m.Select(x, a.keys))
 	}
+	// Type invariants of the loaded value.  They are facts about this execution path only
+	// (the value may be a term computed from the inputs, e.g. a sub-slice stored in a cell
+	// after a bounds check), so they are assumed under the path condition, never globally.
 	for _, f := range x.validity(v, nil) {
-		x.fact(f)
+		x.assumeIn(st, f)
 	}
 	return v
 }
@@ -420,7 +441,104 @@ func ctxKey(cnt map[int]int) string {
 	return sb.String()
 }
 
+// exitedLoop: all incoming edges of n come from inside one unrolled loop that contains no
+// return or panic, and n lies outside that loop.
+func (fr *frameRun) exitedLoop(n *xnode) *loopInfo {
+	var cand *loopInfo
+	for _, l := range fr.loops {
+		if l.body[n.b] || (l.spec != nil && len(l.spec.Invs) > 0) {
+			continue
+		}
+		all := true
+		for _, in := range n.in {
+			if in.from == nil || !l.body[in.from.b] {
+				all = false
+				break
+			}
+		}
+		if !all {
+			continue
+		}
+		if cand == nil || len(l.body) < len(cand.body) {
+			cand = l
+		}
+	}
+	if cand == nil {
+		return nil
+	}
+	// n must be the ONLY way out of the loop (blocks that return or panic from inside the
+	// loop are not part of the natural loop body: they show up as further exit targets)
+	for b := range cand.body {
+		for _, instr := range b.Instrs {
+			switch instr.(type) {
+			case *ssa.Return, *ssa.Panic:
+				return nil
+			}
+		}
+		for _, s := range b.Succs {
+			if !cand.body[s] && s != n.b {
+				return nil
+			}
+		}
+	}
+	return cand
+}
+
+// postDominates: every path from block d to a function exit (return or panic) passes
+// through block b.
+func (fr *frameRun) postDominates(b, d *ssa.BasicBlock) bool {
+	if fr.pdom == nil {
+		blocks := fr.fn.Blocks
+		n := len(blocks)
+		// pdom[i] = set of blocks post-dominating i (bitset as []bool), iterative dataflow
+		full := func() []bool {
+			s := make([]bool, n)
+			for i := range s {
+				s[i] = true
+			}
+			return s
+		}
+		pd := make([][]bool, n)
+		for i, blk := range blocks {
+			if len(blk.Succs) == 0 {
+				pd[i] = make([]bool, n)
+				pd[i][i] = true
+			} else {
+				pd[i] = full()
+			}
+		}
+		for changed := true; changed; {
+			changed = false
+			for i := n - 1; i >= 0; i-- {
+				blk := blocks[i]
+				if len(blk.Succs) == 0 {
+					continue
+				}
+				ns := full()
+				for _, s := range blk.Succs {
+					for k := 0; k < n; k++ {
+						ns[k] = ns[k] && pd[s.Index][k]
+					}
+				}
+				ns[i] = true
+				for k := 0; k < n; k++ {
+					if ns[k] != pd[i][k] {
+						pd[i] = ns
+						changed = true
+						break
+					}
+				}
+			}
+		}
+		fr.pdom = pd
+	}
+	return fr.pdom[d.Index][b.Index]
+}
+
 type frameRun struct {
+	pdom        [][]bool
+	nodeEntryPC map[string]*Term
+	loopEntryPC map[string]*Term
 	fn      *ssa.Function
 	loops   []*loopInfo
 	hdr     map[*ssa.BasicBlock]*loopInfo
@@ -647,6 +765,8 @@ func (x *Exec) runFunc(fn *ssa.Function, args []*Val, st *State, con *Contract, 
 	fr.unrollD = 12
 	if x.ghost > 0 {
 		fr.unrollD = 20
+	} else if x.unrollOverride > 0 {
+		fr.unrollD = x.unrollOverride
 	}
 	fr.loops = findLoops(fn)
 	for _, l := range fr.loops {
@@ -732,6 +852,14 @@ func (x *Exec) runFunc(fn *ssa.Function, args []*Val, st *State, con *Contract, 
 	if out.pc.IsFalse() {
 		rpc = x.tb.False
 	}
+	// A cut loop ends its body paths at the back edge without a return, so the exit
+	// conditions of such loops are genuinely part of the return path condition.
+	for _, l := range fr.loops {
+		if l.spec != nil && len(l.spec.Invs) > 0 {
+			rpc = x.tb.And(st.pc, out.pc)
+			break
+		}
+	}
 	ret := &State{env: st.env, heaps: out.heaps, pc: rpc, base: st.base, top: out.top, havocs: out.havocs}
 	return vals, ret, nil
 }
@@ -782,7 +910,46 @@ func (x *Exec) runNode(fr *frameRun, n *xnode) error {
 	if st.pc.IsFalse() {
 		return nil
 	}
+	// Join of an if/else (or switch) region: when this block post-dominates its immediate
+	// dominator, every path from the dominator arrives here, so the path condition is the
+	// dominator's - instead of the syntactic disjunction of the branch conditions.
+	if len(n.in) > 1 && os.Getenv("GOCV_NORESET") == "" {
+		if d := n.b.Idom(); d != nil && fr.postDominates(n.b, d) && fr.hdr[n.b] == nil {
+			if pc, ok := fr.nodeEntryPC[fmt.Sprintf("%d|%s", d.Index, n.ctx)]; ok {
+				st.pc = pc
+			}
+		}
+	}
+	if fr.nodeEntryPC == nil {
+		fr.nodeEntryPC = map[string]*Term{}
+	}
+	fr.nodeEntryPC[fmt.Sprintf("%d|%s", n.b.Index, n.ctx)] = st.pc
+	// Leaving an unrolled loop that has no return/panic inside: every path through the loop
+	// arrives here (the unwinding assertion was checked and assumed), so the path condition
+	// is the one the loop was entered with - kept syntactically small on purpose.
+	if len(n.in) > 1 && os.Getenv("GOCV_NORESET") == "" {
+		if el := fr.exitedLoop(n); el != nil {
+			if pc, ok := fr.loopEntryPC[fmt.Sprintf("%d|%s", el.header.Index, n.ctx)]; ok {
+				if os.Getenv("GOCV_DEBUG") != "" {
+					fmt.Fprintf(os.Stderr, "DEBUG: reset in %s block %d (%s) ins=%d: %s -> %s\n", fr.fn.Name(), n.b.Index, n.b.Comment, len(n.in), st.pc.Pretty(200), pc.Pretty(200))
+				}
+				st.pc = pc
+			}
+		}
+	}
 	l := fr.hdr[n.b]
+	if l != nil && n.cnt[n.b.Index] == 0 && (l.spec == nil || len(l.spec.Invs) == 0) {
+		ctx := map[int]int{}
+		for k, v := range n.cnt {
+			if k != n.b.Index {
+				ctx[k] = v
+			}
+		}
+		if fr.loopEntryPC == nil {
+			fr.loopEntryPC = map[string]*Term{}
+		}
+		fr.loopEntryPC[fmt.Sprintf("%d|%s", n.b.Index, ctxKey(ctx))] = st.pc
+	}
 	cut := l != nil && l.spec != nil && len(l.spec.Invs) > 0
 	// phis
 	idx := 0
@@ -810,6 +977,23 @@ func (x *Exec) runNode(fr *frameRun, n *xnode) error {
 		x.havocLoop(fr, l, st, phis)
 		if err := x.assumeInvariants(fr, l, st); err != nil {
 			return err
+		}
+		if x.ghost == 0 && len(l.spec.Uses) > 0 {
+			largs, err := x.invArgs(fr, l, st)
+			if err != nil {
+				return err
+			}
+			var pargs []*Val
+			for _, p := range fr.fn.Params {
+				pargs = append(pargs, fr.entry.env[p])
+			}
+			for _, uf := range l.spec.Uses {
+				_, ns, err := x.runFuncBind(uf, append(append([]*Val{}, pargs...), largs...), nil, st, nil)
+				if err != nil {
+					return err
+				}
+				st.heaps, st.top, st.havocs = ns.heaps, ns.top, ns.havocs
+			}
 		}
 	} else {
 		var phis []*ssa.Phi
@@ -991,13 +1175,11 @@ func (x *Exec) checkInvariants(fr *frameRun, l *loopInfo, st *State, phase strin
 		return err
 	}
 	for j, clo := range fr.invs[l.ord] {
-		x.skolems = nil
 		g, err := x.callClosureBool(st, clo, args, false)
 		if err != nil {
 			return err
 		}
 		x.oblige(st, "loop", fmt.Sprintf("loop%d.%s.%d", l.ord, phase, j), l.header.Instrs[0].Pos(), g)
-		x.skolems = nil
 	}
 	return nil
 }
